@@ -1,3 +1,4 @@
+@classmethod
 def spec(cls, support, loc, scale):
     support, loc, scale = _astensorsfloat(support, loc, scale)
     return 1 / (scale * math.sqrt(math.tau)) * torch.exp(-0.5 * ((support - loc) / scale) ** 2)
